@@ -37,7 +37,7 @@ type okEv struct {
 	carriers map[ssa.Value]bool // values that may hold the call's error result
 	cells    map[*ssa.Alloc]bool
 	fcells   map[*types.Var]bool // struct fields the result is parked in (b.err = f(); if b.err != nil)
-	want     bool // for bool results: the value that counts as success
+	want     bool                // for bool results: the value that counts as success
 	boolMode bool
 	sticky   bool // a later matching call does not reset an established event
 	reset    func(ssa.Instruction) bool
